@@ -1,8 +1,9 @@
-(* Cisco/TunnelProofs.v — the tunnel-group oracle is equality of the expanded tunnel-groups;
-   an accepted run passes through exactly the prefix states; a command that is accepted in a
-   sub-mode never touches another object. *)
+(* Cisco/TunnelProofs.v — the tunnel-group / user oracle is equality of the expanded objects;
+   an accepted run passes through exactly the prefix states; a line that is accepted in a
+   sub-mode touches only the block of that sub-mode. *)
 From Coq Require Import List String Bool Arith Lia.
-From NA Require Import Base.Str Cisco.Vpn Cisco.VpnProofs Cisco.Tunnel.
+From NA Require Import Base.Str Cisco.Vpn Cisco.VpnProofs.
+From NA Require Import Cisco.Tunnel.
 Import ListNotations.
 Open Scope string_scope.
 
@@ -25,43 +26,45 @@ Proof.
   rewrite skipn_all in R. simpl in R. injection R as ->. exact P.
 Qed.
 
-(* a line entered in a sub-mode leaves the ACLs alone, in a tunnel-group section also the group-policies,
-   in a group-policy also the tunnel-groups *)
-Theorem tsub_keeps_acls d w d' : tsub d w = TOk d' -> td_acls d' = td_acls d.
+Lemma put_block_keeps d b : td_acls (put_block d b) = td_acls d /\ td_pools (put_block d b) = td_pools d /\ td_mode (put_block d b) = td_mode d.
 Proof.
-  unfold tsub. destruct (td_mode d) as [|g|t sec]; [discriminate| |].
-  - destruct (vlookup g (td_gps d)) as [b|]; [|discriminate].
-    destruct (is_no w) as [l|].
-    + destruct (has_line l b); intros H; [injection H as <-; reflexivity | discriminate].
-    + destruct (filter_ref w) as [a|].
-      * destruct (vhas a (td_acls d)); intros H; [injection H as <-; reflexivity | discriminate].
-      * intros H; injection H as <-; reflexivity.
-  - destruct (vlookup t (td_tgs d)) as [[ty secs]|]; [|discriminate].
-    destruct (is_no w) as [l|].
-    + destruct (has_line l _); intros H; [injection H as <-; reflexivity | discriminate].
-    + destruct (policy_ref w) as [g|].
-      * destruct (vhas g (td_gps d)); intros H; [injection H as <-; reflexivity | discriminate].
-      * intros H; injection H as <-; reflexivity.
+  unfold put_block. destruct (td_mode d) as [|g|t sec|u] eqn:M; try (repeat split; first [reflexivity | exact M]).
+  destruct (vlookup t (td_tgs d)) as [[ty secs]|]; repeat split; first [reflexivity | exact M].
 Qed.
 
-Theorem tsub_in_section_keeps_policies d w d' t sec : td_mode d = TTg t sec -> tsub d w = TOk d' -> td_gps d' = td_gps d.
+Lemma tsub_result d w d' : tsub d w = TOk d' -> exists b, d' = put_block d b.
 Proof.
-  unfold tsub. intros ->.
-  destruct (vlookup t (td_tgs d)) as [[ty secs]|]; [|discriminate].
-  destruct (is_no w) as [l|].
-  - destruct (has_line l _); intros H; [injection H as <-; reflexivity | discriminate].
-  - destruct (policy_ref w) as [g|].
-    + destruct (vhas g (td_gps d)); intros H; [injection H as <-; reflexivity | discriminate].
-    + intros H; injection H as <-; reflexivity.
+  unfold tsub. destruct (td_mode d); [discriminate| | |];
+  (destruct (cur_block d) as [b|]; [|discriminate];
+   destruct (is_no w) as [l|];
+   [ destruct (has_line l b); intros H; [injection H as <-; eexists; reflexivity | discriminate]
+   | destruct (line_ref w) as [[k nm]|];
+     [ destruct (exists_obj k nm d); intros H; [injection H as <-; eexists; reflexivity | discriminate]
+     | intros H; injection H as <-; eexists; reflexivity ] ]).
 Qed.
 
-Theorem tsub_in_policy_keeps_tunnel_groups d w d' g : td_mode d = TGp g -> tsub d w = TOk d' -> td_tgs d' = td_tgs d.
+(* a line entered in a sub-mode leaves ACLs, pools and the mode alone *)
+Theorem tsub_keeps_acls_pools_mode d w d' : tsub d w = TOk d' ->
+  td_acls d' = td_acls d /\ td_pools d' = td_pools d /\ td_mode d' = td_mode d.
+Proof. intros H. destruct (tsub_result d w d' H) as [b ->]. apply put_block_keeps. Qed.
+
+(* ... in a tunnel-group section or a user also the group-policies, in a group-policy the tunnel-groups and users *)
+Theorem tsub_outside_policy_keeps_policies d w d' : (forall g, td_mode d <> TGp g) -> tsub d w = TOk d' -> td_gps d' = td_gps d.
 Proof.
-  unfold tsub. intros ->.
-  destruct (vlookup g (td_gps d)) as [b|]; [|discriminate].
-  destruct (is_no w) as [l|].
-  - destruct (has_line l b); intros H; [injection H as <-; reflexivity | discriminate].
-  - destruct (filter_ref w) as [a|].
-    + destruct (vhas a (td_acls d)); intros H; [injection H as <-; reflexivity | discriminate].
-    + intros H; injection H as <-; reflexivity.
+  intros M H. destruct (tsub_result d w d' H) as [b ->]. unfold put_block.
+  destruct (td_mode d) as [|g|t sec|u]; try reflexivity.
+  - exfalso. exact (M g eq_refl).
+  - destruct (vlookup t (td_tgs d)) as [[ty secs]|]; reflexivity.
+Qed.
+Theorem tsub_in_policy_keeps_tunnel_groups_and_users d w d' g : td_mode d = TGp g -> tsub d w = TOk d' ->
+  td_tgs d' = td_tgs d /\ td_users d' = td_users d.
+Proof.
+  intros M H. destruct (tsub_result d w d' H) as [b ->]. unfold put_block. rewrite M. split; reflexivity.
+Qed.
+
+(* a reference is only ever entered to an object that exists *)
+Theorem tsub_reference_exists d w d' k n : tsub d w = TOk d' -> is_no w = None -> line_ref w = Some (k, n) -> exists_obj k n d = true.
+Proof.
+  unfold tsub. intros H N R. destruct (td_mode d); [discriminate| | |];
+  (destruct (cur_block d) as [b|]; [|discriminate]; rewrite N, R in H; destruct (exists_obj k n d); [reflexivity | discriminate]).
 Qed.
